@@ -37,6 +37,7 @@ type convCell struct {
 	refuse                     bool // a configuration the library does not implement
 	f64                        bool // float64 operands (float32 otherwise)
 	bias                       bool
+	autoPadFirst               bool // the auto_pad attribute is listed before the others (attribute order carries no meaning)
 }
 
 func (cell convCell) String() string {
@@ -55,6 +56,11 @@ func (cell convCell) String() string {
 	}
 	if cell.autoPad != "" {
 		s += ", auto_pad " + cell.autoPad
+		if cell.autoPadFirst {
+			s += " (listed first)"
+		} else if cell.pads != nil {
+			s += " (listed after pads)"
+		}
 	}
 	if cell.bias {
 		s += ", with bias"
@@ -204,6 +210,12 @@ func (c *Ctx) convTable1() (known bool, bad string, cells int) {
 		{x: []int64{1, 2, 5}, w: []int64{3, 2, 2}},                                                      // the first geometry with one sample
 		{x: []int64{1, 2, 3, 3}, w: []int64{1, 2, 1, 1}, bias: true},                                    // and the 1x1 kernel with one sample
 		{x: []int64{1, 1, 2, 2, 2}, w: []int64{1, 1, 1, 1, 1}, refuse: true},                            // 3-D: not implemented, to be refused
+		// auto_pad given explicitly as NOTSET next to explicit pads, in both attribute orders
+		{x: []int64{1, 2, 4, 5}, w: []int64{2, 2, 2, 3}, strides: []int64{1, 2}, pads: []int64{1, 0, 0, 2}, autoPad: "NOTSET"},
+		{x: []int64{1, 2, 4, 5}, w: []int64{2, 2, 2, 3}, strides: []int64{1, 2}, pads: []int64{1, 0, 0, 2}, autoPad: "NOTSET", autoPadFirst: true},
+		{x: []int64{1, 1, 5}, w: []int64{1, 1, 3}, pads: []int64{2, 1}, autoPad: "NOTSET"},
+		{x: []int64{1, 1, 5}, w: []int64{1, 1, 3}, pads: []int64{2, 1}, autoPad: "NOTSET", autoPadFirst: true},
+		{x: []int64{1, 1, 5, 4}, w: []int64{1, 1, 3, 2}, strides: []int64{2, 3}, autoPad: "SAME_LOWER", autoPadFirst: true},
 	}
 	// both admitted element types: the hand-picked geometries once more with float64 operands
 	for _, cell := range append([]convCell{}, list...) {
@@ -235,6 +247,9 @@ func (c *Ctx) convTable1() (known bool, bad string, cells int) {
 			fields["Name"] = pval{k: pStr, s: name}
 			attrs = append(attrs, b.obj(onnxPkg.Types, "AttributeProto", fields))
 		}
+		if cell.autoPad != "" && cell.autoPadFirst {
+			add("auto_pad", map[string]pval{"S": {k: pStr, s: cell.autoPad}})
+		}
 		if cell.strides != nil {
 			add("strides", map[string]pval{"Ints": ints(cell.strides)})
 		}
@@ -247,7 +262,7 @@ func (c *Ctx) convTable1() (known bool, bad string, cells int) {
 		if cell.kshape != nil {
 			add("kernel_shape", map[string]pval{"Ints": ints(cell.kshape)})
 		}
-		if cell.autoPad != "" {
+		if cell.autoPad != "" && !cell.autoPadFirst {
 			add("auto_pad", map[string]pval{"S": {k: pStr, s: cell.autoPad}})
 		}
 		node := b.obj(onnxPkg.Types, "NodeProto", map[string]pval{"Attribute": b.list(attrs...)})
